@@ -186,11 +186,11 @@ func parseTrace(logPath, dir string) ([]killPoint, []string) {
 				pts = append(pts, killPoint{name, ord, n})
 				norm = append(norm, n)
 			}
-		case "write":
+		case "write", "fchmod", "ftruncate":
 			fd := strings.SplitN(rest, ",", 2)[0]
 			if k, ok := fds[fd]; ok {
-				pts = append(pts, killPoint{name, ord, "write:" + k})
-				norm = append(norm, "write:"+k)
+				pts = append(pts, killPoint{name, ord, name + ":" + k})
+				norm = append(norm, name+":"+k)
 			}
 		default:
 			if !inLayout {
